@@ -328,7 +328,7 @@ func (r *pdRun) exchange(data []byte, desc string) {
 	r.tr("%s -> %s", desc, describeRep(repPDs))
 	hadKnown := len(r.m.Known[client]) > 0
 	for _, f := range r.m.Judge(client, reqPDs, repPDs, tBefore, tAfter) {
-		ctx.Viol(f.Prop, f.Sig, "pool %s /%d: %s\n  last: %v", r.c.Pool, r.c.Alloc, f.Msg, r.trace)
+		ctx.Viol(f.Prop, f.Sig, "pool %s /%d (configured as %q, log level %s): %s\n  last: %v", r.c.Pool, r.c.Alloc, spellPool(r.c.Seed, r.pool), caseLogLevel(r.c.Seed), f.Msg, r.trace)
 	}
 	if hadKnown && len(reqPDs) > 0 {
 		r.sawRenew = true
@@ -357,6 +357,26 @@ func describeRep(rep []model.ReplyPD) string {
 	return sb.String()
 }
 
+// spellPool is how the pool is written in the configuration: a third of the histories write it the way an
+// interface address is written (address/length with host bits set), which names the same network.
+func spellPool(seed int64, pool *net.IPNet) string {
+	rng := rand.New(rand.NewSource(seed ^ 0x5be11))
+	if rng.Intn(3) != 0 {
+		return pool.String()
+	}
+	ones, _ := pool.Mask.Size()
+	ip := append(net.IP{}, pool.IP.To16()...)
+	for i := ones; i < 128; i++ {
+		if rng.Intn(2) == 0 {
+			ip[i/8] |= 0x80 >> uint(i%8)
+		}
+	}
+	if ones >= 96 && ip[:12].Equal(net.IP{0, 0, 0, 0, 0, 0, 0, 0, 0, 0, 0xff, 0xff}) {
+		return pool.String()
+	}
+	return fmt.Sprintf("%s/%d", ip, ones)
+}
+
 func (prefixEngine) Run(ctx *fw.Ctx, cs any) {
 	c := cs.(*prefixCase)
 	_, pool, err := net.ParseCIDR(c.Pool)
@@ -364,10 +384,19 @@ func (prefixEngine) Run(ctx *fw.Ctx, cs any) {
 		ctx.Inconclusive("bad pool %q", c.Pool)
 		return
 	}
-	h, err := prefix.Plugin.Setup6(c.Pool, fmt.Sprint(c.Alloc))
+	defer setLogLevelName("info")
+	lv := setCaseLogLevel(c.Seed)
+	spelled := spellPool(c.Seed, pool)
+	h, err := prefix.Plugin.Setup6(spelled, fmt.Sprint(c.Alloc))
 	if err != nil {
-		ctx.Viol("C08", "setup-fails", "prefix plugin setup(%s, %d) failed: %v", c.Pool, c.Alloc, err)
+		ctx.Viol("C08", "setup-fails", "prefix plugin setup(%s, %d) failed: %v", spelled, c.Alloc, err)
 		return
+	}
+	if spelled != c.Pool {
+		ctx.Count("prefix.pool_written_with_host_bits", 1)
+	}
+	if lv == "debug" {
+		ctx.Count("prefix.histories_at_debug_level", 1)
 	}
 	r := &pdRun{ctx: ctx, c: c, rng: rand.New(rand.NewSource(c.Seed)), pool: pool, nmsgs: map[int]int{}, lastTyp: map[int]byte{}}
 	r.m = model.NewPrefixModel(pool, c.Alloc)
